@@ -1206,4 +1206,804 @@ theorem CI.take_ch {c R ss chs act eph cd H} (h : CI c R ss chs act eph cd H) {n
     · intro e hes hke; exact hnew _ (h.oldS e hes _ hke) rfl
   · exact h'.res k hk
 
+
+theorem sentSealed_append (a b : List Out) : sentSealed (a ++ b) = sentSealed a ++ sentSealed b := by
+  induction a using sentSealed.induct with
+  | case1 => rfl
+  | case2 dst src n k n' ctr pt ok rest ih => simp only [List.cons_append, sentSealed, ih]
+  | case3 o rest hne ih =>
+    rw [List.cons_append, sentSealed, sentSealed, ih]
+    all_goals first | exact hne | (intro dst src n k n' ctr pt ok heq; exact hne dst src n k n' ctr pt ok heq)
+
+def CInv (c : Cfg) (R : List Key) (H0 : Hist) (st : St) : Prop :=
+  CI c R st.1.sessions st.1.challenges st.1.active st.1.fresh.eph st.1.fresh.cd (H0 ++ sentSealed st.2)
+
+theorem CInv.ci {c R H0 st} (h : CInv c R H0 st) :
+    CI c R st.1.sessions st.1.challenges st.1.active st.1.fresh.eph st.1.fresh.cd (H0 ++ sentSealed st.2) := h
+
+theorem CI.emit_other {c R ss chs act eph cd H0 os} (h : CI c R ss chs act eph cd (H0 ++ sentSealed os)) (o : Out)
+    (ho : sentSealed [o] = []) : CI c R ss chs act eph cd (H0 ++ sentSealed (os ++ [o])) := by
+  rw [sentSealed_append, ho, List.append_nil]; exact h
+
+theorem sentSealed_sealed (dst : NA) (src n : Nat) (k : Key) (n' ctr : Nat) (pt : Msg) (ok : Bool) :
+    sentSealed [.send dst (.message src n (.enc k n' ctr pt ok))] =
+      [(k, ctr, .message src n (.enc k n' ctr pt ok))] := rfl
+
+theorem hist_mono {H0 : Hist} {os : List Out} (os' : List Out) {x} (hx : x ∈ H0 ++ sentSealed os) :
+    x ∈ H0 ++ sentSealed (os ++ os') := by
+  rw [sentSealed_append, ← List.append_assoc]; exact List.mem_append_left _ hx
+
+theorem mem_sent (H0 : Hist) (os : List Out) (dst : NA) (src n : Nat) (k : Key) (n' ctr : Nat) (pt : Msg) (ok : Bool) :
+    (k, ctr, Pkt.message src n (.enc k n' ctr pt ok)) ∈
+      H0 ++ sentSealed (os ++ [.send dst (.message src n (.enc k n' ctr pt ok))]) := by
+  rw [sentSealed_append, sentSealed_sealed]
+  exact List.mem_append_right _ (List.mem_append_right _ (List.mem_singleton.2 rfl))
+
+theorem mem_hist_snoc {H0 : Hist} {os : List Out} {dst : NA} {src n : Nat} {k : Key} {n' ctr : Nat} {pt : Msg}
+    {ok : Bool} {x} (hx : x ∈ H0 ++ sentSealed (os ++ [.send dst (.message src n (.enc k n' ctr pt ok))])) :
+    x ∈ H0 ++ sentSealed os ∨ x = (k, ctr, .message src n (.enc k n' ctr pt ok)) := by
+  rw [sentSealed_append, sentSealed_sealed, ← List.append_assoc] at hx
+  rcases List.mem_append.1 hx with hx | hx
+  · exact Or.inl hx
+  · exact Or.inr (List.mem_singleton.1 hx)
+
+theorem CallOK_sealed {H : Hist} {src n : Nat} {k : Key} {n' ctr : Nat} {pt : Msg} {ok : Bool}
+    (h : (k, ctr, Pkt.message src n (.enc k n' ctr pt ok)) ∈ H) : CallOK H (.message src n (.enc k n' ctr pt ok)) := by
+  intro s2 n2 k2 n2' c2 p2 o2 heq
+  cases heq; exact h
+
+theorem CallOK_garbage (H : Hist) (src n : Nat) : CallOK H (.message src n .garbage) := by
+  intro s2 n2 k2 n2' c2 p2 o2 heq; cases heq
+
+theorem CallOK_handshake (H : Hist) (src n : Nat) (sig : Sig) (eph : Nat) (r : Option Rec) (ct : Ct) :
+    CallOK H (.handshake src n sig eph r ct) := by
+  intro s2 n2 k2 n2' c2 p2 o2 heq; cases heq
+
+/-- Sending a stored packet (retransmission, or not a sealed message at all). -/
+theorem CI.send_ok {c R ss chs act eph cd H0 os} (h : CI c R ss chs act eph cd (H0 ++ sentSealed os)) (dst : NA)
+    {p : Pkt} (hp : CallOK (H0 ++ sentSealed os) p) :
+    CI c R ss chs act eph cd (H0 ++ sentSealed (os ++ [.send dst p])) := by
+  cases p with
+  | whoareyou n cd' e => exact h.emit_other _ rfl
+  | handshake src n sig eph' r ct => exact h.emit_other _ rfl
+  | message src n ct =>
+    cases ct with
+    | garbage => exact h.emit_other _ rfl
+    | enc k n' ctr pt ok =>
+      rw [sentSealed_append, sentSealed_sealed, ← List.append_assoc]
+      exact h.hist_old (hp src n k n' ctr pt ok rfl)
+
+/-- Sending a newly sealed message. -/
+theorem CI.send_new {c R ss chs act eph cd H0 os} (h : CI c R ss chs act eph cd (H0 ++ sentSealed os)) {e}
+    (he : e ∈ ss) {k : Key} (hk : HasEnc e.2.1 k) {ctr : Nat} (hc : ctr ≤ e.2.1.counter)
+    (hlt : ∀ x ∈ H0 ++ sentSealed os, x.1 = k → x.2.1 < ctr) (dst : NA) (src n n' : Nat) (pt : Msg) (ok : Bool) :
+    CI c R ss chs act eph cd (H0 ++ sentSealed (os ++ [.send dst (.message src n (.enc k n' ctr pt ok))])) := by
+  rw [sentSealed_append, sentSealed_sealed, ← List.append_assoc]
+  exact h.hist_new he hk hc hlt _
+
+theorem CI.act_append {c R ss chs act eph cd H} (h : CI c R ss chs act eph cd H) (call : Call)
+    (hc : CallOK H call.pkt) : CI c R ss chs (act ++ [call]) eph cd H := by
+  refine h.act (fun x hx => ?_)
+  rcases List.mem_append.1 hx with hx | hx
+  · exact h.actOk x hx
+  · rw [List.mem_singleton.1 hx]; exact hc
+
+theorem CI.act_sub {c R ss chs act act' eph cd H} (h : CI c R ss chs act eph cd H)
+    (hs : ∀ x ∈ act', x ∈ act) : CI c R ss chs act' eph cd H :=
+  h.act (fun x hx => h.actOk x (hs x hx))
+
+theorem popExpired_sublist (ttl rt : Nat) (l : SS) : (popExpired ttl rt l).2.Sublist l := by
+  induction l with
+  | nil => simp [popExpired]
+  | cons x xs ih =>
+    obtain ⟨na, sess, stamp⟩ := x
+    unfold popExpired
+    split
+    · exact List.Sublist.refl _
+    · exact List.Sublist.cons _ ih
+
+theorem ss_touch_nodup {ss : SS} (h : ss.Pairwise (fun a b => a.1 ≠ b.1)) (na : NA) (sess : Session) (rt : Nat) :
+    (ss.filter (·.1 != na) ++ [(na, sess, rt)]).Pairwise (fun a b => a.1 ≠ b.1) := by
+  rw [List.pairwise_append]
+  refine ⟨h.sublist List.filter_sublist, List.pairwise_singleton _ _, fun a ha b hb => ?_⟩
+  rw [List.mem_singleton.1 hb]
+  simpa using (List.mem_filter.1 ha).2
+
+theorem mem_put {ss : SS} {na : NA} {sess : Session} {e'}
+    (he' : e' ∈ ss.map (fun e => if e.1 == na then (na, sess, e.2.2) else e)) :
+    ∃ e ∈ ss, (e.1 = na ∧ e' = (na, sess, e.2.2)) ∨ (e.1 ≠ na ∧ e' = e) := by
+  obtain ⟨e, he, rfl⟩ := List.mem_map.1 he'
+  refine ⟨e, he, ?_⟩
+  by_cases hna : e.1 = na
+  · left; exact ⟨hna, by simp [hna]⟩
+  · right; exact ⟨hna, by simp [hna]⟩
+
+theorem put_nodup {ss : SS} (h : ss.Pairwise (fun a b => a.1 ≠ b.1)) (na : NA) (sess : Session) :
+    (ss.map (fun e => if e.1 == na then (na, sess, e.2.2) else e)).Pairwise (fun a b => a.1 ≠ b.1) := by
+  rw [List.pairwise_map]
+  refine h.imp ?_
+  intro a b hab
+  have fst : ∀ e : NA × Session × Nat, (if e.1 == na then (na, sess, e.2.2) else e).1 = e.1 := by
+    intro e; by_cases hna : e.1 = na <;> simp [hna]
+  rw [fst, fst]; exact hab
+
+theorem mem_put_self {ss : SS} {na : NA} {cur : Session} {stamp : Nat} (h : (na, cur, stamp) ∈ ss) (sess : Session) :
+    (na, sess, stamp) ∈ ss.map (fun e => if e.1 == na then (na, sess, e.2.2) else e) :=
+  List.mem_map.2 ⟨(na, cur, stamp), h, by simp⟩
+
+theorem CI.put_derived {c R ss chs act eph cd H} (h : CI c R ss chs act eph cd H) {na : NA} {cur : Session}
+    {stamp : Nat} (hmem : (na, cur, stamp) ∈ ss) {sess' : Session} (hk : ∀ k, HasEnc sess' k → HasEnc cur k)
+    (hc : cur.counter ≤ sess'.counter) :
+    CI c R (ss.map (fun e => if e.1 == na then (na, sess', e.2.2) else e)) chs act eph cd H := by
+  refine h.sessions_le (put_nodup h.nodup na sess') (fun e' he' => ?_)
+  obtain ⟨e, he, ⟨hna, rfl⟩ | ⟨hna, rfl⟩⟩ := mem_put he'
+  · have : e = (na, cur, stamp) := entry_unique h.nodup he hmem hna
+    subst this
+    exact ⟨_, hmem, rfl, hk, hc⟩
+  · exact ⟨e', he, rfl, fun _ hk => hk, Nat.le_refl _⟩
+
+theorem CI.put_rekey {c knew R ss chs act eph cd H} (h : CI c (knew :: R) ss chs act eph cd H) {na : NA}
+    {cur : Session} {stamp : Nat} (hmem : (na, cur, stamp) ∈ ss) {sess' : Session}
+    (hk : ∀ k, HasEnc sess' k → k = knew ∨ HasEnc cur k) (hc : cur.counter ≤ sess'.counter) :
+    CI c [] (ss.map (fun e => if e.1 == na then (na, sess', e.2.2) else e)) chs act eph cd H := by
+  have hres := (h.res knew (by simp)).2.2
+  refine h.sessions_new na (put_nodup h.nodup na sess') (fun e' he' => ?_)
+  obtain ⟨e, he, ⟨hna, rfl⟩ | ⟨hna, rfl⟩⟩ := mem_put he'
+  · have : e = (na, cur, stamp) := entry_unique h.nodup he hmem hna
+    subst this
+    exact ⟨fun _ _ _ => rfl, Or.inr ⟨_, hmem, rfl, hk, hc⟩⟩
+  · exact ⟨fun k hk' hkn => absurd (hkn ▸ hk') (hres e' he),
+      Or.inr ⟨e', he, rfl, fun k hk' => Or.inr hk', Nat.le_refl _⟩⟩
+
+theorem CI.insert {c knew R ss chs act eph cd H} (h : CI c (knew :: R) ss chs act eph cd H) (na : NA)
+    {sess : Session} (hk : ∀ k, HasEnc sess k → k = knew) (rt : Nat) :
+    CI c [] (ss.filter (·.1 != na) ++ [(na, sess, rt)]) chs act eph cd H := by
+  have hres := (h.res knew (by simp)).2.2
+  refine h.sessions_new na (ss_touch_nodup h.nodup na sess rt) (fun e' he' => ?_)
+  rcases List.mem_append.1 he' with he' | he'
+  · have he := (List.mem_filter.1 he').1
+    exact ⟨fun k hk' hkn => absurd (hkn ▸ hk') (hres e' he),
+      Or.inr ⟨e', he, rfl, fun k hk' => Or.inr hk', Nat.le_refl _⟩⟩
+  · rw [List.mem_singleton.1 he']
+    exact ⟨fun _ _ _ => rfl, Or.inl hk⟩
+
+theorem wp_addExpected {a : Addr} {Q : Unit → St → Prop} {st : St}
+    (h : ∀ ex, Q () ({ st.1 with exempt := ex }, st.2)) : wp (addExpected a) Q st := by
+  unfold addExpected; rw [wp_modS]; split <;> exact h _
+
+theorem HasEnc_congr {s s' : Session} (hk : s'.keys = s.keys) (ho : s'.oldKeys = s.oldKeys) (k : Key)
+    (h : HasEnc s' k) : HasEnc s k := by
+  unfold HasEnc at *; rw [hk, ho] at h; exact h
+
+theorem decrypt_derived (sess : Session) (nonce : Nat) (ct : Ct) :
+    (∀ k, HasEnc (decryptMessage sess nonce ct).1 k → HasEnc sess k) ∧
+      (decryptMessage sess nonce ct).1.counter = sess.counter := by
+  unfold decryptMessage
+  simp only []
+  split
+  · exact ⟨fun _ h => h, rfl⟩
+  · split
+    · rename_i old ho
+      split
+      · refine ⟨fun k hk => ?_, rfl⟩
+        rcases hk with rfl | ⟨o, ho', rfl⟩
+        · exact Or.inr ⟨old, ho, rfl⟩
+        · simp only [Option.some.injEq] at ho'; subst ho'; exact Or.inl rfl
+      · refine ⟨fun k hk => ?_, rfl⟩
+        rcases hk with rfl | ⟨o, ho', rfl⟩
+        · exact Or.inl rfl
+        · cases ho'
+    · exact ⟨fun _ h => h, rfl⟩
+
+
+/-! ### the handler functions preserve the invariant -/
+
+theorem sessGetMut_C (c : Cfg) (R : List Key) (H0 : Hist) (na : NA) :
+    Tr (CInv c R H0) (sessGetMut c na)
+      (fun r st' => CInv c R H0 st' ∧ ∀ sess, r = some sess → ∃ stamp, (na, sess, stamp) ∈ st'.1.sessions) := by
+  intro st h
+  rw [wp_sessGetMut]
+  refine ⟨fun _ => ⟨h, by simp⟩, fun x sess stamp hf => ⟨fun _ => ⟨?_, by simp⟩, fun _ => ⟨?_, ?_⟩⟩⟩
+  · exact CI.sessions_sublist h.ci List.filter_sublist
+  · have hx : x = na := by simpa using List.find?_some hf
+    have hmem := List.mem_of_find?_eq_some hf
+    refine CI.sessions_le h.ci (ss_touch_nodup h.ci.nodup na sess _) (fun e' he' => ?_)
+    rcases List.mem_append.1 he' with he' | he'
+    · exact ⟨e', (List.mem_filter.1 he').1, rfl, fun _ hk => hk, Nat.le_refl _⟩
+    · rw [List.mem_singleton.1 he']
+      exact ⟨(x, sess, stamp), hmem, hx, fun _ hk => hk, Nat.le_refl _⟩
+  · intro s' hs'; cases hs'
+    exact ⟨st.1.rt, List.mem_append_right _ (List.mem_singleton.2 rfl)⟩
+
+theorem removeExpiredSessions_C (c : Cfg) (R : List Key) (H0 : Hist) :
+    Tr (CInv c R H0) (removeExpiredSessions c) (fun _ => CInv c R H0) := by
+  intro st h
+  unfold removeExpiredSessions
+  cr_wpsimp
+  have h' := CI.sessions_sublist h.ci (popExpired_sublist c.sessionTtl st.1.rt st.1.sessions)
+  exact ⟨fun _ => h'.emit_other _ rfl, fun _ => h'⟩
+
+theorem srQueue_C (c : Cfg) (R : List Key) (H0 : Hist) (ct : Contact) (rid : Nat) (i : Bool) (body : Nat) :
+    Tr (CInv c R H0) (srQueue ct rid i body) (fun _ => CInv c R H0) := by
+  intro st h
+  unfold srQueue
+  cr_wpsimp
+  split <;> exact h
+
+theorem srSend_C (c : Cfg) (R : List Key) (H0 : Hist) (ct : Contact) (rid : Nat) (i : Bool) (body : Nat) :
+    Tr (CInv c R H0) (srSend c ct rid i body) (fun _ => CInv c R H0) := by
+  intro st h
+  unfold srSend
+  rw [wp_bind]
+  refine (sessGetMut_C c R H0 ct.na).wp h (fun r st' ⟨h', hr⟩ => ?_)
+  cases r with
+  | none =>
+    simp only []
+    unfold freshNonce srFinish
+    cr_wpsimp
+    refine wp_addExpected (fun ex => ?_)
+    unfold send activeInsert
+    cr_wpsimp
+    exact CI.act_append (h'.ci.emit_other _ rfl) _ (CallOK_garbage _ _ _)
+  | some sess =>
+    obtain ⟨stamp, hmem⟩ := hr sess rfl
+    simp only []
+    rw [wp_bind, wp_encryptMessage]
+    simp only []
+    unfold sessPut srFinish
+    cr_wpsimp
+    refine wp_addExpected (fun ex => ?_)
+    unfold send activeInsert
+    cr_wpsimp
+    have hlt : ∀ x ∈ H0 ++ sentSealed st'.2, x.1 = sess.keys.enc → x.2.1 < sess.counter + 1 := fun x hx hk =>
+      Nat.lt_succ_of_le (h'.ci.bound x hx _ hmem (Or.inl hk))
+    have h1 := CI.put_derived h'.ci hmem (sess' := { sess with counter := sess.counter + 1 }) (fun k hk => hk)
+      (Nat.le_succ _)
+    exact CI.act_append (h1.send_new (mem_put_self hmem _) (Or.inl rfl) (Nat.le_refl _) hlt _ _ _ _ _ _) _
+      (CallOK_sealed (mem_sent _ _ _ _ _ _ _ _ _ _))
+
+theorem isAwaitingSession_C (c : Cfg) (R : List Key) (H0 : Hist) (na : NA) :
+    Tr (CInv c R H0) (isAwaitingSession c na) (fun _ => CInv c R H0) := by
+  intro st h
+  unfold isAwaitingSession
+  rw [wp_bind]
+  refine (sessGetMut_C c R H0 na).wp h (fun r st' ⟨h', _⟩ => ?_)
+  cases r <;> exact h'
+
+theorem sendRequest_C (c : Cfg) (R : List Key) (H0 : Hist) (ct : Contact) (rid : Nat) (i : Bool) (body : Nat) :
+    Tr (CInv c R H0) (sendRequest c ct rid i body) (fun _ => CInv c R H0) := by
+  intro st h
+  rw [sendRequest_eq]
+  cr_wpsimp
+  refine ⟨fun _ => h, fun _ => ⟨fun _ => srQueue_C c R H0 ct rid i body _ h, fun _ => ?_⟩⟩
+  refine (isAwaitingSession_C c R H0 ct.na).wp h (fun r st' h' => ?_)
+  exact ⟨fun _ => srQueue_C c R H0 ct rid i body _ h', fun _ => srSend_C c R H0 ct rid i body _ h'⟩
+
+theorem sendPendingRequests_C (c : Cfg) (R : List Key) (H0 : Hist) (na : NA) :
+    Tr (CInv c R H0) (sendPendingRequests c na) (fun _ => CInv c R H0) := by
+  intro st h
+  unfold sendPendingRequests
+  cr_wpsimp
+  refine forEach_inv (CInv c R H0) _ _ (fun pr _ st h => ?_) _ h
+  rw [wp_bind]
+  refine (sendRequest_C c R H0 _ _ _ _).wp h (fun r st' h' => ?_)
+  cases r with
+  | none => exact h'
+  | some e => simp only []; cr_wpsimp; exact ⟨fun _ => h'.ci.emit_other _ rfl, fun _ => h'⟩
+
+theorem failSession_C (c : Cfg) (R : List Key) (H0 : Hist) (na : NA) (e : Err) (b : Bool) :
+    Tr (CInv c R H0) (failSession c na e b) (fun _ => CInv c R H0) := by
+  have tail : ∀ st, CInv c R H0 st → wp (do
+      let s ← getS
+      have __do_jp : Unit → M Unit := fun __r => do
+        let calls ← activeRemoveRequests na
+        forEach calls fun call => do
+          if !call.internal then emit (.failed call.rid e)
+          removeExpected na.addr
+      match s.pending.find? (·.1 == na) with
+      | some ent =>
+        setS { s with pending := s.pending.filter (·.1 != na) }
+        forEach ent.2 fun pr => do
+          if !pr.internal then emit (.failed pr.rid e)
+        __do_jp ()
+      | none => __do_jp ()) (fun _ => CInv c R H0) st := by
+    intro st h
+    have jp : ∀ st, CInv c R H0 st → wp (do
+        let calls ← activeRemoveRequests na
+        forEach calls fun call => do
+          if !call.internal then emit (.failed call.rid e)
+          removeExpected na.addr) (fun _ => CInv c R H0) st := by
+      intro st h
+      unfold activeRemoveRequests
+      cr_wpsimp
+      refine forEach_inv (CInv c R H0) _ _ (fun call _ st h => ?_) _
+        (CI.act_sub h.ci (fun x hx => (List.mem_filter.1 hx).1))
+      unfold removeExpected
+      cr_wpsimp
+      exact ⟨fun _ => h.ci.emit_other _ rfl, fun _ => h⟩
+    cr_wpsimp
+    split
+    · cr_wpsimp
+      refine (forEach_inv (CInv c R H0) _ _ (fun pr _ st h => ?_)).wp (st := (_, st.2)) h (fun _ st' h' => jp st' h')
+      cr_wpsimp
+      exact ⟨fun _ => h.ci.emit_other _ rfl, fun _ => h⟩
+    · exact jp st h
+  intro st h
+  unfold failSession
+  cases b
+  · simp only [Bool.false_eq_true, if_false]
+    exact tail st h
+  · simp only [if_true]
+    rw [wp_bind]
+    refine (removeExpiredSessions_C c R H0).wp h (fun _ st' h' => ?_)
+    rw [wp_bind]; unfold sessRemove; rw [wp_modS]
+    exact tail _ (CI.sessions_sublist h'.ci List.filter_sublist)
+
+theorem failRequest_C (c : Cfg) (R : List Key) (H0 : Hist) (call : Call) (e : Err) (b : Bool) :
+    Tr (CInv c R H0) (failRequest c call e b) (fun _ => CInv c R H0) := by
+  intro st h
+  unfold failRequest
+  cr_wpsimp
+  exact ⟨fun _ => failSession_C c R H0 _ e b _ (h.ci.emit_other _ rfl), fun _ => failSession_C c R H0 _ e b _ h⟩
+
+theorem handleRequestTimeout_C (c : Cfg) (R : List Key) (H0 : Hist) (call : Call) :
+    Tr (fun st => CInv c R H0 st ∧ CallOK (H0 ++ sentSealed st.2) call.pkt) (handleRequestTimeout c call)
+      (fun _ => CInv c R H0) := by
+  intro st ⟨h, hc⟩
+  unfold handleRequestTimeout removeExpected send activeInsert
+  cr_wpsimp
+  refine ⟨fun _ => failRequest_C c R H0 call _ _ _ h, fun _ => ?_⟩
+  exact CI.act_append (h.ci.send_ok _ hc) _ (hc.mono (fun x hx => hist_mono _ hx))
+
+/-- Packets made by consecutive encryptions under key `k`: counters `base+1, base+2, …`. -/
+inductive Seq (k : Key) : Nat → List (Nat × Pkt) → Prop
+  | nil (base : Nat) : Seq k base []
+  | cons (base old src n n' : Nat) (pt : Msg) (ok : Bool) (rest : List (Nat × Pkt)) :
+      Seq k (base + 1) rest → Seq k base ((old, .message src n (.enc k n' (base + 1) pt ok)) :: rest)
+
+theorem reencryptAll_C (c : Cfg) (R : List Key) (H0 : Hist) (ss0 : SS) (calls : List Call) (sess : Session)
+    (acc : List (Nat × Pkt)) :
+    Tr (fun st => CInv c R H0 st ∧ st.1.sessions = ss0) (reencryptAll c calls sess acc)
+      (fun r st' => (CInv c R H0 st' ∧ st'.1.sessions = ss0) ∧ ∃ ps, r.2 = acc ++ ps ∧
+        Seq sess.keys.enc sess.counter ps ∧
+        r.1.keys = sess.keys ∧ r.1.oldKeys = sess.oldKeys ∧ r.1.counter = sess.counter + ps.length) := by
+  induction calls generalizing sess acc with
+  | nil => intro st h; exact ⟨h, [], (List.append_nil _).symm, Seq.nil _, rfl, rfl, rfl⟩
+  | cons call rest ih =>
+    intro st h
+    unfold reencryptAll
+    rw [wp_bind, wp_encryptMessage]
+    refine (ih { sess with counter := sess.counter + 1 } _).wp (st := (_, st.2)) h
+      (fun r st' ⟨h', ps, hr, hs, hk, ho, hc⟩ => ⟨h', (call.pkt.nonce, Pkt.message c.localId (mkName c (st.1.fresh.nonce + 1))
+        (Ct.enc sess.keys.enc (mkName c (st.1.fresh.nonce + 1)) (sess.counter + 1)
+          (Msg.request call.rid call.body) true)) :: ps, ?_, ?_, hk, ho, ?_⟩)
+    · rw [hr]; simp
+    · exact Seq.cons _ _ _ _ _ _ _ _ hs
+    · rw [hc]; simp only [List.length_cons]; omega
+
+/-- `update_packet` + timer re-arm of `replay_active_requests`. -/
+def replayUpd (c : Cfg) (old : Nat) (p : Pkt) (s : HState) : HState :=
+  { s with
+    active := s.active.map (fun call =>
+      if call.pkt.nonce == old then
+        { call with pkt := p, deadline := s.now + c.requestTimeout, tseq := s.tctr }
+      else call),
+    tctr := s.tctr + 1 }
+
+theorem replay_loop (c : Cfg) (R : List Key) (H0 : Hist) (na : NA) (k : Key) (f : Nat × Pkt → M Unit)
+    (hf : ∀ old p Q st, wp (f (old, p)) Q st ↔ Q () (replayUpd c old p st.1, st.2 ++ [.send na p]))
+    (ps : List (Nat × Pkt)) (base : Nat) (hs : Seq k base ps) :
+    Tr (fun st => CInv c R H0 st ∧ (∀ x ∈ H0 ++ sentSealed st.2, x.1 = k → x.2.1 ≤ base) ∧
+          ∃ e ∈ st.1.sessions, HasEnc e.2.1 k ∧ base + ps.length ≤ e.2.1.counter)
+      (forEach ps f) (fun _ => CInv c R H0) := by
+  induction hs with
+  | nil base => intro st h; exact h.1
+  | cons base old src n n' pt ok rest _ ih =>
+    intro st ⟨h, hle, e, he, hk, hc⟩
+    unfold forEach
+    rw [wp_bind, hf]
+    simp only [List.length_cons] at hc
+    have h1 := h.ci.send_new he hk (ctr := base + 1) (by omega)
+      (fun x hx hxk => Nat.lt_succ_of_le (hle x hx hxk)) na src n n' pt ok
+    refine ih (_, _) ⟨?_, ?_, e, he, hk, by omega⟩
+    · refine h1.act (fun call' hc' => ?_)
+      obtain ⟨call, hcall, rfl⟩ := List.mem_map.1 hc'
+      split
+      · exact CallOK_sealed (mem_sent _ _ _ _ _ _ _ _ _ _)
+      · exact (h.ci.actOk call hcall).mono (fun x hx => hist_mono _ hx)
+    · intro x hx hxk
+      rcases mem_hist_snoc hx with hx | rfl
+      · exact Nat.le_succ_of_le (hle x hx hxk)
+      · exact Nat.le_refl _
+
+theorem replayActiveRequests_C (c : Cfg) (R : List Key) (H0 : Hist) (na : NA) (sk : Option Nat) :
+    Tr (CInv c R H0) (replayActiveRequests c na sk) (fun _ => CInv c R H0) := by
+  intro st h
+  unfold replayActiveRequests
+  rw [wp_bind]
+  refine (sessGetMut_C c R H0 na).wp h (fun r st1 ⟨h1, hr⟩ => ?_)
+  cases r with
+  | none => exact h1
+  | some sess0 =>
+    obtain ⟨stamp, hmem⟩ := hr sess0 rfl
+    simp only []
+    rw [wp_bind, wp_getS, wp_bind]
+    refine (reencryptAll_C c R H0 st1.1.sessions _ sess0 []).wp ⟨h1, rfl⟩
+      (fun r st2 ⟨⟨h2, hss⟩, ps, hps, hseq, hk, ho, hc⟩ => ?_)
+    obtain ⟨sess, packets⟩ := r
+    simp only [List.nil_append] at hps hk ho hc
+    subst hps
+    rw [← hss] at hmem
+    simp only []
+    unfold sessPut
+    rw [wp_bind, wp_modS]
+    refine replay_loop c R H0 na sess0.keys.enc _ (fun old p Q st => Iff.rfl) packets sess0.counter hseq _
+      ⟨?_, ?_, (na, sess, stamp), mem_put_self hmem _, Or.inl (by rw [hk]), by rw [hc]; exact Nat.le_refl _⟩
+    · exact CI.put_derived h2.ci hmem (HasEnc_congr hk ho) (by rw [hc]; exact Nat.le_add_right _ _)
+    · intro x hx hxk
+      exact h2.ci.bound x hx _ hmem (Or.inl hxk)
+
+theorem newSession_C (c : Cfg) (H0 : Hist) (na : NA) (sess : Session) (sk : Option Nat) (ho : sess.oldKeys = none) :
+    Tr (CInv c [sess.keys.enc] H0) (newSession c na sess sk) (fun _ => CInv c [] H0) := by
+  intro st h
+  unfold newSession
+  rw [wp_bind]
+  refine (removeExpiredSessions_C c _ H0).wp h (fun _ st1 h1 => ?_)
+  rw [wp_bind]
+  refine (sessGetMut_C c _ H0 na).wp h1 (fun r st2 ⟨h2, hr⟩ => ?_)
+  cases r with
+  | none =>
+    simp only []
+    unfold sessInsert
+    rw [wp_bind, wp_modS]
+    refine sendPendingRequests_C c [] H0 na _ ?_
+    have hi := CI.insert h2.ci na (sess := sess) (by
+      intro k hk
+      rcases hk with rfl | ⟨old, ho', _⟩
+      · rfl
+      · rw [ho] at ho'; cases ho') st2.1.rt
+    show CI c [] (if _ then _ else _) _ _ _ _ _
+    split
+    · exact hi.sessions_sublist (List.drop_sublist _ _)
+    · exact hi
+  | some cur =>
+    obtain ⟨stamp, hmem⟩ := hr cur rfl
+    simp only []
+    unfold sessPut
+    rw [wp_bind, wp_modS, wp_bind]
+    refine (replayActiveRequests_C c [] H0 na sk).wp ?_ (fun _ st3 h3 => sendPendingRequests_C c [] H0 na _ h3)
+    refine CI.put_rekey h2.ci hmem (fun k hk => ?_) (Nat.le_refl _)
+    rcases hk with rfl | ⟨old, ho', rfl⟩
+    · exact Or.inl rfl
+    · simp only [Option.some.injEq] at ho'; subst ho'; exact Or.inr (Or.inl rfl)
+
+
+/-- `sessPut` on the session list. -/
+def putS (na : NA) (sess : Session) (ss : SS) : SS :=
+  ss.map (fun e => if e.1 == na then (na, sess, e.2.2) else e)
+
+def withSessions (s : HState) (l : SS) : HState := { s with sessions := l }
+
+theorem sendChallenge_C (c : Cfg) (R : List Key) (H0 : Hist) (na : NA) (nonce : Nat) (known : Option Rec) :
+    Tr (CInv c R H0) (sendChallenge c na nonce known) (fun _ => CInv c R H0) := by
+  intro st h
+  unfold sendChallenge freshCd
+  cr_wpsimp
+  refine ⟨fun _ => h, fun _ => ?_⟩
+  refine wp_addExpected (fun ex => ?_)
+  unfold send
+  cr_wpsimp
+  exact CI.emit_other (CI.chs_add h.ci na known _ _) _ rfl
+
+theorem handleResponse_C (c : Cfg) (R : List Key) (H0 : Hist) (na : NA) (rid : Nat) (rb : RespBody) :
+    Tr (CInv c R H0) (handleResponse c na rid rb) (fun _ => CInv c R H0) := by
+  intro st h
+  unfold handleResponse
+  rw [wp_bind, wp_activeRemoveRequest]
+  refine ⟨fun _ => h, fun call hfc => ?_⟩
+  have hc0 : ∀ call' : Call, call'.pkt = call.pkt → CallOK (H0 ++ sentSealed st.2) call'.pkt :=
+    fun call' he => he ▸ h.ci.actOk call (List.mem_of_find?_eq_some hfc)
+  have h0 : CInv c R H0 ({ st.1 with active := st.1.active.erase call }, st.2) :=
+    CI.act_sub h.ci (fun x hx => List.mem_of_mem_erase hx)
+  simp only []
+  have fin : ∀ st : St, CInv c R H0 st →
+      wp (do removeExpected na.addr; emit (.response na rid rb)) (fun _ => CInv c R H0) st := by
+    intro st h; unfold removeExpected; cr_wpsimp; exact h.ci.emit_other _ rfl
+  unfold activeInsert
+  split
+  · cr_wpsimp
+    refine ⟨fun _ => ?_, fun _ => fin _ h0⟩
+    split
+    · cr_wpsimp
+      exact ⟨fun _ => CI.emit_other (CI.act_append h0 _ (hc0 _ (by rfl))) _ (by rfl), fun _ => fin _ h0⟩
+    · cr_wpsimp; exact CI.emit_other (CI.act_append h0 _ (hc0 _ (by rfl))) _ (by rfl)
+  · exact fin _ h0
+
+theorem handleMessage_C (c : Cfg) (R : List Key) (H0 : Hist) (na : NA) (nonce : Nat) (ct : Ct) :
+    Tr (CInv c R H0) (handleMessage c na nonce ct) (fun _ => CInv c R H0) := by
+  intro st h
+  unfold handleMessage
+  rw [wp_bind]
+  refine (sessGetMut_C c R H0 na).wp h (fun r st1 ⟨h1, hr⟩ => ?_)
+  cases r with
+  | none => simp only []; cr_wpsimp; exact h1.ci.emit_other _ rfl
+  | some sess =>
+    obtain ⟨stamp, hmem⟩ := hr sess rfl
+    have hdd := decrypt_derived sess nonce ct
+    simp only []
+    generalize decryptMessage sess nonce ct = r at hdd
+    obtain ⟨sess', pt⟩ := r
+    unfold sessPut
+    rw [wp_bind, wp_modS]
+    simp only []
+    have h2 : CInv c R H0 ({ st1.1 with sessions := putS na sess' st1.1.sessions }, st1.2) :=
+      CI.put_derived h1.ci hmem hdd.1 (Nat.le_of_eq hdd.2.symm)
+    have hmem2 := mem_put_self hmem sess'
+    cases pt with
+    | none =>
+      simp only []
+      rw [wp_bind]
+      refine (failSession_C c R H0 na _ _).wp h2 (fun _ st' h' => ?_)
+      cr_wpsimp
+      exact ⟨fun _ => h'.ci.emit_other _ rfl, fun _ => h'⟩
+    | some m =>
+      cases m with
+      | undecodable => exact h2
+      | request rid body => simp only []; cr_wpsimp; exact h2.ci.emit_other _ rfl
+      | response rid rb =>
+        simp only []
+        cr_wpsimp
+        refine ⟨fun _ => ?_, fun _ => handleResponse_C c R H0 na rid rb _ h2⟩
+        have h3 : CInv c R H0 (withSessions st1.1
+            (putS na { sess' with awaitingEnr := none } (putS na sess' st1.1.sessions)), st1.2) :=
+          CI.put_derived h2.ci hmem2 (fun k hk => hk) (Nat.le_refl _)
+        rw [wp_activeRemoveRequest]
+        have fs := failSession_C c R H0 na .invalidRemoteEnr true
+        have verfin : ∀ st : St, CInv c R H0 st → wp (do
+            let verified ← (do
+              match rb with
+              | .nodes _ recs =>
+                match recs.getLast? with
+                | some r =>
+                  if verifyEnr r na then
+                    emit (.established r na.addr true)
+                    return true
+                  else
+                    emit (.unverifiable r na.addr na.id)
+                    return false
+                | none => return false
+              | _ => return false)
+            if !verified then failSession c na .invalidRemoteEnr true) (fun _ => CInv c R H0) st := by
+          intro st h
+          rw [wp_bind]
+          split
+          · split
+            · cr_wpsimp
+              have ha := h.ci.emit_other (.established ‹Rec› na.addr true) rfl
+              have hb := h.ci.emit_other (.unverifiable ‹Rec› na.addr na.id) rfl
+              exact ⟨fun _ => ⟨fun _ => fs _ ha, fun _ => ha⟩, fun _ => ⟨fun _ => fs _ hb, fun _ => hb⟩⟩
+            · cr_wpsimp; exact ⟨fun _ => fs _ h, fun _ => h⟩
+          · cr_wpsimp; exact ⟨fun _ => fs _ h, fun _ => h⟩
+        refine ⟨fun _ => verfin _ h3, fun call _ => ?_⟩
+        simp only []
+        rw [wp_bind]; unfold removeExpected; rw [wp_modS]
+        exact verfin _ (CI.act_sub h3.ci (fun x hx => List.mem_of_mem_erase hx))
+
+theorem establish_key {c : Cfg} {id : Id} {ch : Challenge} {sig : Sig} {eph : Nat} {record : Option Rec}
+    {sess : Session} {r : Rec} (h : establishFromChallenge c id ch sig eph record = some (some (sess, r))) :
+    sess.keys.enc.toRcp = false ∧ sess.keys.enc.cd = ch.cd ∧ sess.oldKeys = none := by
+  unfold establishFromChallenge at h
+  simp only [] at h
+  split at h
+  · cases h
+  · split at h
+    · cases h
+    · split at h
+      · cases h
+      · simp only [Option.some.injEq, Prod.mk.injEq] at h
+        obtain ⟨rfl, -⟩ := h
+        exact ⟨rfl, rfl, rfl⟩
+
+theorem handleAuthMessage_C (c : Cfg) (H0 : Hist) (na : NA) (nonce : Nat) (sig : Sig) (eph : Nat)
+    (record : Option Rec) (ct : Ct) :
+    Tr (CInv c [] H0) (handleAuthMessage c na nonce sig eph record ct) (fun _ => CInv c [] H0) := by
+  intro st h
+  unfold handleAuthMessage
+  rw [wp_bind, wp_getS]
+  split
+  · exact h
+  · rename_i x ch d q hfind
+    rw [wp_bind, wp_setS]
+    cases he : establishFromChallenge c na.id ch sig eph record with
+    | none => simp only []; cr_wpsimp; exact CI.chs_readd h.ci hfind _ _
+    | some r =>
+      cases r with
+      | none =>
+        simp only []
+        unfold removeExpected
+        rw [wp_bind, wp_modS]
+        exact failSession_C c [] H0 na _ _ _ (CI.chs_sublist h.ci List.filter_sublist)
+      | some p =>
+        obtain ⟨sess, r⟩ := p
+        obtain ⟨hk1, hk2, hold⟩ := establish_key he
+        have h1 := CI.take_ch h.ci hfind sess.keys.enc hk1 hk2
+        simp only []
+        unfold removeExpected
+        rw [wp_bind, wp_modS]
+        have jp : ∀ st : St, CInv c [sess.keys.enc] H0 st →
+            wp (newSession c na sess none >>= fun _ => handleMessage c na nonce ct) (fun _ => CInv c [] H0) st := by
+          intro st h
+          rw [wp_bind]
+          exact (newSession_C c H0 na sess none hold).wp h (fun _ st' h' => handleMessage_C c [] H0 na nonce ct _ h')
+        cr_wpsimp
+        exact ⟨fun _ => jp _ (h1.emit_other _ rfl), fun _ => jp _ (h1.emit_other _ rfl)⟩
+
+theorem handleChallenge_C (c : Cfg) (H0 : Hist) (src : Addr) (nonce cd enrSeq : Nat) :
+    Tr (CInv c [] H0) (handleChallenge c src nonce cd enrSeq) (fun _ => CInv c [] H0) := by
+  intro st h
+  unfold handleChallenge
+  rw [wp_bind, wp_activeRemoveByNonce]
+  refine ⟨fun _ => h, fun call0 hf0 => ?_⟩
+  have hc0 : CallOK (H0 ++ sentSealed st.2) call0.pkt := h.ci.actOk call0 (List.mem_of_find?_eq_some hf0)
+  have h0 : CInv c [] H0 ({ st.1 with active := st.1.active.erase call0 }, st.2) :=
+    CI.act_sub h.ci (fun x hx => List.mem_of_mem_erase hx)
+  simp only []
+  rw [wp_ite]
+  refine ⟨fun _ => ?_, fun _ => ?_⟩
+  · unfold activeInsert; cr_wpsimp; exact CI.act_append h0 _ hc0
+  rw [wp_ite]
+  refine ⟨fun _ => ?_, fun _ => ?_⟩
+  · unfold removeExpected
+    rw [wp_bind, wp_modS, wp_bind]
+    exact (failRequest_C c [] H0 call0 _ _).wp h0 (fun _ _ h' => h')
+  unfold freshEph freshNonce activeInsert send freshRid
+  cr_wpsimp
+  split
+  · cr_wpsimp
+    refine newSession_C c H0 _ _ _ rfl _ ?_
+    exact CI.emit_other (CI.emit_other (CI.act_append (CI.eph_bump h0 _ (by rfl) (by rfl)) _
+      (CallOK_handshake _ _ _ _ _ _ _)) _ rfl) _ rfl
+  · cr_wpsimp
+    refine (sendRequest_C c _ H0 _ _ _ _).wp ?_ (fun _ st' h' => newSession_C c H0 _ _ _ rfl _ h')
+    exact CI.emit_other (CI.act_append (CI.eph_bump h0 _ (by rfl) (by rfl)) _
+      (CallOK_handshake _ _ _ _ _ _ _)) _ rfl
+
+
+theorem foldl_pick_mem {α} (g : Option α → α → Option α)
+    (hg : ∀ m x, g m x = some x ∨ (∃ b, m = some b ∧ g m x = some b)) (l : List α) (init : Option α) (r : α)
+    (h : l.foldl g init = some r) : r ∈ l ∨ init = some r := by
+  induction l generalizing init with
+  | nil => exact Or.inr h
+  | cons x xs ih =>
+    rw [List.foldl_cons] at h
+    rcases ih _ h with hr | hr
+    · exact Or.inl (List.mem_cons_of_mem _ hr)
+    · rcases hg init x with hx | ⟨b, hb, hx⟩
+      · rw [hx] at hr; cases hr; exact Or.inl (List.mem_cons_self ..)
+      · rw [hx] at hr; cases hr; exact Or.inr hb
+
+theorem nextDue_mem {s : HState} {target d : Nat} {call : Call} (h : nextDue s target = some (d, .inl call)) :
+    call ∈ s.active := by
+  unfold nextDue at h
+  simp only [] at h
+  generalize hR : List.foldl _ none (s.active.filter (·.deadline ≤ target)) = minR at h
+  generalize hC : List.foldl _ none (s.challenges.filter (·.2.2.1 ≤ target)) = minC at h
+  have hmem : ∀ r, minR = some r → r ∈ s.active := by
+    intro r hr
+    rw [hr] at hR
+    rcases foldl_pick_mem _ (by
+      intro m x
+      cases m with
+      | none => exact Or.inl rfl
+      | some b =>
+        simp only []
+        split
+        · exact Or.inl rfl
+        · exact Or.inr ⟨b, rfl, rfl⟩) _ _ _ hR with h1 | h1
+    · exact (List.mem_filter.1 h1).1
+    · cases h1
+  cases minR with
+  | none =>
+    cases minC with
+    | none => cases h
+    | some ch => simp only [Option.some.injEq, Prod.mk.injEq, reduceCtorEq, and_false] at h
+  | some r =>
+    cases minC with
+    | none =>
+      simp only [Option.some.injEq, Prod.mk.injEq, Sum.inl.injEq] at h
+      rw [← h.2]; exact hmem r rfl
+    | some ch =>
+      simp only [] at h
+      split at h
+      · simp only [Option.some.injEq, Prod.mk.injEq, reduceCtorEq, and_false] at h
+      · simp only [Option.some.injEq, Prod.mk.injEq, Sum.inl.injEq] at h
+        rw [← h.2]; exact hmem r rfl
+
+theorem fireTimers_C (c : Cfg) (H0 : Hist) (target fuel : Nat) :
+    Tr (CInv c [] H0) (fireTimers c target fuel) (fun _ => CInv c [] H0) := by
+  induction fuel with
+  | zero => intro st h; exact h
+  | succ n ih =>
+    intro st h
+    unfold fireTimers
+    rw [wp_bind, wp_getS]
+    split
+    · exact h
+    · rename_i d call hnd
+      rw [wp_bind, wp_setS, wp_bind]
+      have hc : CallOK (H0 ++ sentSealed st.2) call.pkt := h.ci.actOk call (nextDue_mem hnd)
+      refine (handleRequestTimeout_C c [] H0 call).wp ⟨?_, hc⟩ (fun _ st' h' => ih st' h')
+      exact CI.act_sub h.ci (fun x hx => List.mem_of_mem_erase hx)
+    · unfold removeExpected
+      rw [wp_bind, wp_setS, wp_bind, wp_modS, wp_bind]
+      refine (sendPendingRequests_C c [] H0 _).wp ?_ (fun _ st' h' => ih st' h')
+      exact CI.chs_sublist h.ci List.filter_sublist
+
+theorem stepM_C (c : Cfg) (H0 : Hist) (e : Ev) : Tr (CInv c [] H0) (stepM c e) (fun _ => CInv c [] H0) := by
+  intro st h
+  cases e with
+  | appRequest ct rid body =>
+    unfold stepM
+    rw [wp_bind]
+    refine (sendRequest_C c [] H0 _ _ _ _).wp h (fun r st' h' => ?_)
+    cases r with
+    | none => exact h'
+    | some e => simp only []; cr_wpsimp; exact h'.ci.emit_other _ (by rfl)
+  | appResponse na rid rb =>
+    unfold stepM
+    rw [wp_bind]
+    refine (sessGetMut_C c [] H0 na).wp h (fun r st' ⟨h', hr⟩ => ?_)
+    cases r with
+    | none => exact h'
+    | some sess =>
+      obtain ⟨stamp, hmem⟩ := hr sess rfl
+      simp only []
+      rw [wp_bind, wp_encryptMessage]
+      unfold sessPut send
+      cr_wpsimp
+      have hlt : ∀ x ∈ H0 ++ sentSealed st'.2, x.1 = sess.keys.enc → x.2.1 < sess.counter + 1 := fun x hx hk =>
+        Nat.lt_succ_of_le (h'.ci.bound x hx _ hmem (Or.inl hk))
+      have h1 := CI.put_derived h'.ci hmem (sess' := { sess with counter := sess.counter + 1 }) (fun k hk => hk)
+        (Nat.le_succ _)
+      exact h1.send_new (mem_put_self hmem _) (Or.inl rfl) (Nat.le_refl _) hlt _ _ _ _ _ _
+  | appWru na nonce known => exact sendChallenge_C c [] H0 na nonce known st h
+  | dgram src p =>
+    cases p with
+    | whoareyou nonce cd enrSeq => exact handleChallenge_C c H0 src nonce cd enrSeq st h
+    | handshake srcId nonce sig eph record ct => exact handleAuthMessage_C c H0 _ nonce sig eph record ct st h
+    | message srcId nonce ct => exact handleMessage_C c [] H0 _ nonce ct st h
+  | adv dt =>
+    unfold stepM
+    rw [wp_bind, wp_getS, wp_bind]
+    exact (fireTimers_C c H0 _ _).wp h (fun _ st' h' => h')
+  | rtAdv dt => exact h
+
+theorem trace_C (c : Cfg) (evs : List Ev) : ∀ (s : HState) (H : Hist),
+    CI c [] s.sessions s.challenges s.active s.fresh.eph s.fresh.cd H →
+    ∀ a ∈ H ++ sentSealed (trace c s evs).flatten, ∀ b ∈ H ++ sentSealed (trace c s evs).flatten,
+      a.1 = b.1 → a.2.1 = b.2.1 → a.2.2 = b.2.2 := by
+  induction evs with
+  | nil =>
+    intro s H h a ha b hb
+    have e : H ++ sentSealed (trace c s []).flatten = H := by
+      show H ++ [] = H
+      exact List.append_nil _
+    rw [e] at ha hb
+    exact h.self a ha b hb
+  | cons e rest ih =>
+    intro s H h
+    have h0 : CInv c [] H (s, []) := by
+      show CI c [] s.sessions s.challenges s.active s.fresh.eph s.fresh.cd (H ++ [])
+      rw [List.append_nil]; exact h
+    have h1 : CI c [] (step c s e).1.sessions (step c s e).1.challenges (step c s e).1.active
+        (step c s e).1.fresh.eph (step c s e).1.fresh.cd (H ++ sentSealed (step c s e).2) :=
+      stepM_C c H e (s, []) h0
+    have e2 : H ++ sentSealed (trace c s (e :: rest)).flatten =
+        (H ++ sentSealed (step c s e).2) ++ sentSealed (trace c (step c s e).1 rest).flatten := by
+      show H ++ sentSealed ((step c s e).2 :: trace c (step c s e).1 rest).flatten = _
+      rw [List.flatten_cons, sentSealed_append, List.append_assoc]
+    rw [e2]
+    exact ih _ _ h1
+
+
 end Discv5.H.Cr
